@@ -307,6 +307,43 @@ def r3_format(toks, counts, names=('format',)):
     return out
 
 
+def r32_format_prefixed(toks, counts):
+    """opt-in: `format!("LIT{name}")` / `format!("LIT{}", E)` -- a literal prefix followed by ONE placeholder at the very end --
+    -> `fmt_prefixed("LIT", &name)` / `fmt_prefixed("LIT", &(E))`: the text is the prefix followed by the Display text of the value
+    (what `format!` means for this shape).  Runs before R3, which makes every other `format!` opaque."""
+    out = []
+    i = 0
+    n = len(toks)
+    while i < n:
+        t = toks[i]
+        if is_id(t, 'format'):
+            bang = next_sig(toks, i + 1)
+            if bang < n and is_p(toks[bang], '!'):
+                op = next_sig(toks, bang + 1)
+                if op < n and is_p(toks[op], '('):
+                    cl = match_close(toks, op)
+                    inner = [x for x in toks[op + 1:cl] if x[0] not in TRIVIA]
+                    if inner and inner[0][0] == 'str' and inner[0][1].startswith('"'):
+                        lit = inner[0][1][1:-1]
+                        m = re.match(r'^([^{}\\]*)\{([A-Za-z_][A-Za-z0-9_]*)?\}$', lit)
+                        if m:
+                            prefix, name = m.group(1), m.group(2)
+                            arg = None
+                            if name and len(inner) == 1:
+                                arg = name
+                            elif not name and len(inner) >= 3 and is_p(inner[1], ','):
+                                a0 = next(k for k in range(op + 1, cl) if is_p(toks[k], ','))
+                                arg = '(' + _flat(toks[a0 + 1:cl]).rstrip(',').strip() + ')'
+                            if arg is not None:
+                                out += rtok.tokenize('fmt_prefixed("%s", &%s)' % (prefix, arg))
+                                counts['R32'] = counts.get('R32', 0) + 1
+                                i = cl + 1
+                                continue
+        out.append(t)
+        i += 1
+    return out
+
+
 def r3b_anyhow_macro(toks, counts):
     """what R21 leaves: `anyhow::anyhow!(..)` -> `opaque_anyhow_val()` (an error value whose text is irrelevant)"""
     out = []
@@ -2575,6 +2612,8 @@ def extract_region(src_text, path, opts=None):
         elif r == 'R12':
             item = r12_context(item, counts)
         elif r == 'R3':
+            if 'R32' in opts.get('rules', ()):
+                item = r32_format_prefixed(item, counts)
             item = r3_format(item, counts, names=('format',) + tuple(opts.get('opaque_macros', ())))
         elif r == 'R4':
             item = r4_ref_patterns(item, counts)
